@@ -137,3 +137,40 @@ Proof.
   change (isinstance (ckind E) (VInt z) TInt) with true. cbn [orb]. rewrite Ho.
   cbn [procs_apply]. unfold all_failing. cbn [failing_preds pbind]. destruct m; reflexivity.
 Qed.
+(* the other documented spellings read the same: 32 digits without dashes, and the canonical text in braces *)
+Lemma plain_nobrace h : Forall plain h -> Forall (fun c => is_brace c = false) h.
+Proof. intros H. eapply Forall_impl; [|exact H]. intros c [_ Hc]. exact Hc. Qed.
+
+Theorem uuid_hex_roundtrip n : 0 <= n < 2 ^ 128 -> uuid_parse (to_hex 32 n) = Some n.
+Proof.
+  intros Hn. unfold uuid_parse.
+  rewrite strip_id by (apply plain_nobrace; apply to_hex_plain).
+  rewrite filter_plain by apply to_hex_plain. rewrite to_hex_length. cbn [Nat.eqb].
+  rewrite (of_to_hex 32 n 0) by (change (16 ^ Z.of_nat 32) with (2 ^ 128); exact Hn). f_equal.
+Qed.
+
+Lemma dashed_nobrace h : Forall plain h -> Forall (fun c => is_brace c = false) (dashed h).
+Proof.
+  intros Hp. pose proof (plain_nobrace h Hp) as Hb. unfold dashed.
+  repeat (apply Forall_app; split; [apply Forall_firstn; try apply Forall_skipn; exact Hb | constructor; [reflexivity|]]).
+  apply Forall_skipn. exact Hb.
+Qed.
+
+Lemma strip_braced s : Forall (fun c => is_brace c = false) s -> strip_with is_brace (123 :: s ++ [125]) = s.
+Proof.
+  intros H. unfold strip_with. cbn [lstrip]. change (is_brace 123) with true. cbv iota.
+  assert (Hl : lstrip is_brace (s ++ [125]) = s ++ [125] \/ s = []).
+  { destruct H as [|c s Hc Hs]; [right; reflexivity|]. left. cbn [app lstrip]. rewrite Hc. reflexivity. }
+  destruct Hl as [Hl | ->].
+  - rewrite Hl, rev_app_distr. cbn [rev app lstrip]. change (is_brace 125) with true. cbv iota.
+    rewrite (lstrip_id is_brace (rev s)) by (apply Forall_rev; exact H). apply rev_involutive.
+  - reflexivity.
+Qed.
+
+Theorem uuid_braced_roundtrip n : 0 <= n < 2 ^ 128 -> uuid_parse (123 :: uuid_str n ++ [125]) = Some n.
+Proof.
+  intros Hn. unfold uuid_parse, uuid_str.
+  rewrite strip_braced by (apply dashed_nobrace; apply to_hex_plain).
+  pose proof (uuid_roundtrip n Hn) as R. unfold uuid_parse, uuid_str in R.
+  rewrite strip_id in R by (apply dashed_nobrace; apply to_hex_plain). exact R.
+Qed.
